@@ -94,7 +94,6 @@ impl<'a> StylesheetParser<'a> for CssParser<'a> {
             }
             Some("import") => self.parse_css_import_rule(start),
             Some("media") => self.parse_media_rule(start),
-            Some("-moz-document") => self._parse_moz_document_rule(name),
             Some("supports") => self.parse_supports_rule(),
             _ => self.unknown_at_rule(name, start),
         }
